@@ -285,6 +285,15 @@ func genSanitizeText(r *rand.Rand, n int, emit func(args ...string)) {
 	for _, s := range fixed {
 		emit(sanCase(s)...)
 	}
+	// long texts: batches of password statements of both kinds (several hundred bytes to several kilobytes)
+	for _, k := range []int{3, 6, 12, 40} {
+		var b strings.Builder
+		for i := 0; i < k; i++ {
+			fmt.Fprintf(&b, "create user \"svc_account_%02d\" with password 'Kx7mQw-%02d-cPz9';\n", i, i)
+			fmt.Fprintf(&b, "set password for \"svc_account_%02d\" = 'Hj4nLt-%02d-sBv2';\n", i, i)
+		}
+		emit(sanCase(b.String())...)
+	}
 	for i := 0; i < n; i++ {
 		var text string
 		switch k := r.Intn(20); {
@@ -495,6 +504,19 @@ func propSanitizeText(args []string) string {
 			if allMarkers(w) && strings.Contains(a.strings_[k], w) && !strings.Contains(a.names[k], w) {
 				return fmt.Sprintf("String() = %q contains the password fragment %q", a.strings_[k], w)
 			}
+		}
+	}
+	// Sanitize is a function of the text: asked again (twice more), also with another long text in between,
+	// it answers the same (round-4 seeded change C15-1 remembered the last long text half-redacted)
+	for i := 0; i < 2; i++ {
+		if i == 1 {
+			_ = influxql.Sanitize(strings.Repeat("SELECT v FROM m WHERE x = 'padding to get past any size threshold'; ", 8))
+		}
+		if again := influxql.Sanitize(text); again != a.out {
+			return fmt.Sprintf("Sanitize answers differently when asked again: first %q, then %q", a.out, again)
+		}
+		if again := influxql.Sanitize(text); again != a.out {
+			return fmt.Sprintf("Sanitize answers differently when asked again: first %q, then %q", a.out, again)
 		}
 	}
 	if string([]rune(a.out)) == string([]rune(a.expected)) {
